@@ -8,7 +8,7 @@ Set Implicit Arguments.
 Section Tab.
   Variable S : Type.
   Variable O : Ops S.
-  Variable out : list S -> val.
+  Let out (l : list S) : gval S := GQ l.
   Let o1 (v : V1 S) := out (v1_list v).
   Let o2 (v : V2 S) := out (v2_list v).
   Let o3 (v : V3 S) := out (v3_list v).
@@ -17,173 +17,173 @@ Section Tab.
   Let r1 := @rd_v1 S.  Let r2 := @rd_v2 S.  Let r3 := @rd_v3 S.  Let r4 := @rd_v4 S.
   Let rs := @rd_s S.
 
-  Definition tab_c03 : list (string * (list S -> val)) := [
-    ("v1_add", run2 r1 r1 (fun a b => o1 (v1_add O a b)));
-    ("v2_add", run2 r2 r2 (fun a b => o2 (v2_add O a b)));
-    ("v3_add", run2 r3 r3 (fun a b => o3 (v3_add O a b)));
-    ("v4_add", run2 r4 r4 (fun a b => o4 (v4_add O a b)));
-    ("v1_sub", run2 r1 r1 (fun a b => o1 (v1_sub O a b)));
-    ("v2_sub", run2 r2 r2 (fun a b => o2 (v2_sub O a b)));
-    ("v3_sub", run2 r3 r3 (fun a b => o3 (v3_sub O a b)));
-    ("v4_sub", run2 r4 r4 (fun a b => o4 (v4_sub O a b)));
-    ("v1_neg", run1 r1 (fun a => o1 (v1_neg O a)));
-    ("v2_neg", run1 r2 (fun a => o2 (v2_neg O a)));
-    ("v3_neg", run1 r3 (fun a => o3 (v3_neg O a)));
-    ("v4_neg", run1 r4 (fun a => o4 (v4_neg O a)));
-    ("v1_mul_s", run2 r1 rs (fun a s => o1 (v1_mul_s O a s)));
-    ("v2_mul_s", run2 r2 rs (fun a s => o2 (v2_mul_s O a s)));
-    ("v3_mul_s", run2 r3 rs (fun a s => o3 (v3_mul_s O a s)));
-    ("v4_mul_s", run2 r4 rs (fun a s => o4 (v4_mul_s O a s)));
-    ("v1_div_s", run2 r1 rs (fun a s => o1 (v1_div_s O a s)));
-    ("v2_div_s", run2 r2 rs (fun a s => o2 (v2_div_s O a s)));
-    ("v3_div_s", run2 r3 rs (fun a s => o3 (v3_div_s O a s)));
-    ("v4_div_s", run2 r4 rs (fun a s => o4 (v4_div_s O a s)));
-    ("v1_rem_s", run2 r1 rs (fun a s => o1 (v1_rem_s O a s)));
-    ("v2_rem_s", run2 r2 rs (fun a s => o2 (v2_rem_s O a s)));
-    ("v3_rem_s", run2 r3 rs (fun a s => o3 (v3_rem_s O a s)));
-    ("v4_rem_s", run2 r4 rs (fun a s => o4 (v4_rem_s O a s)));
-    ("v1_add_ew", run2 r1 r1 (fun a b => o1 (v1_add_ew O a b)));
-    ("v2_add_ew", run2 r2 r2 (fun a b => o2 (v2_add_ew O a b)));
-    ("v3_add_ew", run2 r3 r3 (fun a b => o3 (v3_add_ew O a b)));
-    ("v4_add_ew", run2 r4 r4 (fun a b => o4 (v4_add_ew O a b)));
-    ("v1_sub_ew", run2 r1 r1 (fun a b => o1 (v1_sub_ew O a b)));
-    ("v2_sub_ew", run2 r2 r2 (fun a b => o2 (v2_sub_ew O a b)));
-    ("v3_sub_ew", run2 r3 r3 (fun a b => o3 (v3_sub_ew O a b)));
-    ("v4_sub_ew", run2 r4 r4 (fun a b => o4 (v4_sub_ew O a b)));
-    ("v1_mul_ew", run2 r1 r1 (fun a b => o1 (v1_mul_ew O a b)));
-    ("v2_mul_ew", run2 r2 r2 (fun a b => o2 (v2_mul_ew O a b)));
-    ("v3_mul_ew", run2 r3 r3 (fun a b => o3 (v3_mul_ew O a b)));
-    ("v4_mul_ew", run2 r4 r4 (fun a b => o4 (v4_mul_ew O a b)));
-    ("v1_div_ew", run2 r1 r1 (fun a b => o1 (v1_div_ew O a b)));
-    ("v2_div_ew", run2 r2 r2 (fun a b => o2 (v2_div_ew O a b)));
-    ("v3_div_ew", run2 r3 r3 (fun a b => o3 (v3_div_ew O a b)));
-    ("v4_div_ew", run2 r4 r4 (fun a b => o4 (v4_div_ew O a b)));
-    ("v1_rem_ew", run2 r1 r1 (fun a b => o1 (v1_rem_ew O a b)));
-    ("v2_rem_ew", run2 r2 r2 (fun a b => o2 (v2_rem_ew O a b)));
-    ("v3_rem_ew", run2 r3 r3 (fun a b => o3 (v3_rem_ew O a b)));
-    ("v4_rem_ew", run2 r4 r4 (fun a b => o4 (v4_rem_ew O a b)));
-    ("v1_add_ews", run2 r1 rs (fun a s => o1 (v1_add_ews O a s)));
-    ("v2_add_ews", run2 r2 rs (fun a s => o2 (v2_add_ews O a s)));
-    ("v3_add_ews", run2 r3 rs (fun a s => o3 (v3_add_ews O a s)));
-    ("v4_add_ews", run2 r4 rs (fun a s => o4 (v4_add_ews O a s)));
-    ("v1_sub_ews", run2 r1 rs (fun a s => o1 (v1_sub_ews O a s)));
-    ("v2_sub_ews", run2 r2 rs (fun a s => o2 (v2_sub_ews O a s)));
-    ("v3_sub_ews", run2 r3 rs (fun a s => o3 (v3_sub_ews O a s)));
-    ("v4_sub_ews", run2 r4 rs (fun a s => o4 (v4_sub_ews O a s)));
-    ("v1_mul_ews", run2 r1 rs (fun a s => o1 (v1_mul_ews O a s)));
-    ("v2_mul_ews", run2 r2 rs (fun a s => o2 (v2_mul_ews O a s)));
-    ("v3_mul_ews", run2 r3 rs (fun a s => o3 (v3_mul_ews O a s)));
-    ("v4_mul_ews", run2 r4 rs (fun a s => o4 (v4_mul_ews O a s)));
-    ("v1_div_ews", run2 r1 rs (fun a s => o1 (v1_div_ews O a s)));
-    ("v2_div_ews", run2 r2 rs (fun a s => o2 (v2_div_ews O a s)));
-    ("v3_div_ews", run2 r3 rs (fun a s => o3 (v3_div_ews O a s)));
-    ("v4_div_ews", run2 r4 rs (fun a s => o4 (v4_div_ews O a s)));
-    ("v1_rem_ews", run2 r1 rs (fun a s => o1 (v1_rem_ews O a s)));
-    ("v2_rem_ews", run2 r2 rs (fun a s => o2 (v2_rem_ews O a s)));
-    ("v3_rem_ews", run2 r3 rs (fun a s => o3 (v3_rem_ews O a s)));
-    ("v4_rem_ews", run2 r4 rs (fun a s => o4 (v4_rem_ews O a s)));
-    ("v1_add_assign", run2 r1 r1 (fun a b => o1 (v1_add_assign O a b)));
-    ("v1_sub_assign", run2 r1 r1 (fun a b => o1 (v1_sub_assign O a b)));
-    ("v1_mul_assign", run2 r1 rs (fun a s => o1 (v1_mul_assign O a s)));
-    ("v1_div_assign", run2 r1 rs (fun a s => o1 (v1_div_assign O a s)));
-    ("v1_rem_assign", run2 r1 rs (fun a s => o1 (v1_rem_assign O a s)));
-    ("v1_add_assign_ew", run2 r1 r1 (fun a b => o1 (v1_add_assign_ew O a b)));
-    ("v1_add_assign_ews", run2 r1 rs (fun a s => o1 (v1_add_assign_ews O a s)));
-    ("v1_sub_assign_ew", run2 r1 r1 (fun a b => o1 (v1_sub_assign_ew O a b)));
-    ("v1_sub_assign_ews", run2 r1 rs (fun a s => o1 (v1_sub_assign_ews O a s)));
-    ("v1_mul_assign_ew", run2 r1 r1 (fun a b => o1 (v1_mul_assign_ew O a b)));
-    ("v1_mul_assign_ews", run2 r1 rs (fun a s => o1 (v1_mul_assign_ews O a s)));
-    ("v1_div_assign_ew", run2 r1 r1 (fun a b => o1 (v1_div_assign_ew O a b)));
-    ("v1_div_assign_ews", run2 r1 rs (fun a s => o1 (v1_div_assign_ews O a s)));
-    ("v1_rem_assign_ew", run2 r1 r1 (fun a b => o1 (v1_rem_assign_ew O a b)));
-    ("v1_rem_assign_ews", run2 r1 rs (fun a s => o1 (v1_rem_assign_ews O a s)));
-    ("v2_add_assign", run2 r2 r2 (fun a b => o2 (v2_add_assign O a b)));
-    ("v2_sub_assign", run2 r2 r2 (fun a b => o2 (v2_sub_assign O a b)));
-    ("v2_mul_assign", run2 r2 rs (fun a s => o2 (v2_mul_assign O a s)));
-    ("v2_div_assign", run2 r2 rs (fun a s => o2 (v2_div_assign O a s)));
-    ("v2_rem_assign", run2 r2 rs (fun a s => o2 (v2_rem_assign O a s)));
-    ("v2_add_assign_ew", run2 r2 r2 (fun a b => o2 (v2_add_assign_ew O a b)));
-    ("v2_add_assign_ews", run2 r2 rs (fun a s => o2 (v2_add_assign_ews O a s)));
-    ("v2_sub_assign_ew", run2 r2 r2 (fun a b => o2 (v2_sub_assign_ew O a b)));
-    ("v2_sub_assign_ews", run2 r2 rs (fun a s => o2 (v2_sub_assign_ews O a s)));
-    ("v2_mul_assign_ew", run2 r2 r2 (fun a b => o2 (v2_mul_assign_ew O a b)));
-    ("v2_mul_assign_ews", run2 r2 rs (fun a s => o2 (v2_mul_assign_ews O a s)));
-    ("v2_div_assign_ew", run2 r2 r2 (fun a b => o2 (v2_div_assign_ew O a b)));
-    ("v2_div_assign_ews", run2 r2 rs (fun a s => o2 (v2_div_assign_ews O a s)));
-    ("v2_rem_assign_ew", run2 r2 r2 (fun a b => o2 (v2_rem_assign_ew O a b)));
-    ("v2_rem_assign_ews", run2 r2 rs (fun a s => o2 (v2_rem_assign_ews O a s)));
-    ("v3_add_assign", run2 r3 r3 (fun a b => o3 (v3_add_assign O a b)));
-    ("v3_sub_assign", run2 r3 r3 (fun a b => o3 (v3_sub_assign O a b)));
-    ("v3_mul_assign", run2 r3 rs (fun a s => o3 (v3_mul_assign O a s)));
-    ("v3_div_assign", run2 r3 rs (fun a s => o3 (v3_div_assign O a s)));
-    ("v3_rem_assign", run2 r3 rs (fun a s => o3 (v3_rem_assign O a s)));
-    ("v3_add_assign_ew", run2 r3 r3 (fun a b => o3 (v3_add_assign_ew O a b)));
-    ("v3_add_assign_ews", run2 r3 rs (fun a s => o3 (v3_add_assign_ews O a s)));
-    ("v3_sub_assign_ew", run2 r3 r3 (fun a b => o3 (v3_sub_assign_ew O a b)));
-    ("v3_sub_assign_ews", run2 r3 rs (fun a s => o3 (v3_sub_assign_ews O a s)));
-    ("v3_mul_assign_ew", run2 r3 r3 (fun a b => o3 (v3_mul_assign_ew O a b)));
-    ("v3_mul_assign_ews", run2 r3 rs (fun a s => o3 (v3_mul_assign_ews O a s)));
-    ("v3_div_assign_ew", run2 r3 r3 (fun a b => o3 (v3_div_assign_ew O a b)));
-    ("v3_div_assign_ews", run2 r3 rs (fun a s => o3 (v3_div_assign_ews O a s)));
-    ("v3_rem_assign_ew", run2 r3 r3 (fun a b => o3 (v3_rem_assign_ew O a b)));
-    ("v3_rem_assign_ews", run2 r3 rs (fun a s => o3 (v3_rem_assign_ews O a s)));
-    ("v4_add_assign", run2 r4 r4 (fun a b => o4 (v4_add_assign O a b)));
-    ("v4_sub_assign", run2 r4 r4 (fun a b => o4 (v4_sub_assign O a b)));
-    ("v4_mul_assign", run2 r4 rs (fun a s => o4 (v4_mul_assign O a s)));
-    ("v4_div_assign", run2 r4 rs (fun a s => o4 (v4_div_assign O a s)));
-    ("v4_rem_assign", run2 r4 rs (fun a s => o4 (v4_rem_assign O a s)));
-    ("v4_add_assign_ew", run2 r4 r4 (fun a b => o4 (v4_add_assign_ew O a b)));
-    ("v4_add_assign_ews", run2 r4 rs (fun a s => o4 (v4_add_assign_ews O a s)));
-    ("v4_sub_assign_ew", run2 r4 r4 (fun a b => o4 (v4_sub_assign_ew O a b)));
-    ("v4_sub_assign_ews", run2 r4 rs (fun a s => o4 (v4_sub_assign_ews O a s)));
-    ("v4_mul_assign_ew", run2 r4 r4 (fun a b => o4 (v4_mul_assign_ew O a b)));
-    ("v4_mul_assign_ews", run2 r4 rs (fun a s => o4 (v4_mul_assign_ews O a s)));
-    ("v4_div_assign_ew", run2 r4 r4 (fun a b => o4 (v4_div_assign_ew O a b)));
-    ("v4_div_assign_ews", run2 r4 rs (fun a s => o4 (v4_div_assign_ews O a s)));
-    ("v4_rem_assign_ew", run2 r4 r4 (fun a b => o4 (v4_rem_assign_ew O a b)));
-    ("v4_rem_assign_ews", run2 r4 rs (fun a s => o4 (v4_rem_assign_ews O a s)));
-    ("v1_sum", run1 r1 (fun a => os (v1_sum a)));
-    ("v2_sum", run1 r2 (fun a => os (v2_sum O a)));
-    ("v3_sum", run1 r3 (fun a => os (v3_sum O a)));
-    ("v4_sum", run1 r4 (fun a => os (v4_sum O a)));
-    ("v1_product", run1 r1 (fun a => os (v1_product a)));
-    ("v2_product", run1 r2 (fun a => os (v2_product O a)));
-    ("v3_product", run1 r3 (fun a => os (v3_product O a)));
-    ("v4_product", run1 r4 (fun a => os (v4_product O a)));
-    ("v1_zero", run0 (o1 (v1_zero O)));
-    ("v2_zero", run0 (o2 (v2_zero O)));
-    ("v3_zero", run0 (o3 (v3_zero O)));
-    ("v4_zero", run0 (o4 (v4_zero O)));
-    ("v1_from_value", run1 rs (fun s => o1 (v1_from_value s)));
-    ("v2_from_value", run1 rs (fun s => o2 (v2_from_value s)));
-    ("v3_from_value", run1 rs (fun s => o3 (v3_from_value s)));
-    ("v4_from_value", run1 rs (fun s => o4 (v4_from_value s)));
-    ("v1_dot", run2 r1 r1 (fun a b => os (v1_dot O a b)));
-    ("v2_dot", run2 r2 r2 (fun a b => os (v2_dot O a b)));
-    ("v3_dot", run2 r3 r3 (fun a b => os (v3_dot O a b)));
-    ("v4_dot", run2 r4 r4 (fun a b => os (v4_dot O a b)));
-    ("v1_magnitude2", run1 r1 (fun a => os (v1_magnitude2 O a)));
-    ("v2_magnitude2", run1 r2 (fun a => os (v2_magnitude2 O a)));
-    ("v3_magnitude2", run1 r3 (fun a => os (v3_magnitude2 O a)));
-    ("v4_magnitude2", run1 r4 (fun a => os (v4_magnitude2 O a)));
-    ("v3_cross", run2 r3 r3 (fun a b => o3 (v3_cross O a b)));
-    ("v2_perp_dot", run2 r2 r2 (fun a b => os (v2_perp_dot O a b)));
-    ("v1_unit_x", run0 (o1 (v1_unit_x O)));
-    ("v2_unit_x", run0 (o2 (v2_unit_x O)));
-    ("v2_unit_y", run0 (o2 (v2_unit_y O)));
-    ("v3_unit_x", run0 (o3 (v3_unit_x O)));
-    ("v3_unit_y", run0 (o3 (v3_unit_y O)));
-    ("v3_unit_z", run0 (o3 (v3_unit_z O)));
-    ("v4_unit_x", run0 (o4 (v4_unit_x O)));
-    ("v4_unit_y", run0 (o4 (v4_unit_y O)));
-    ("v4_unit_z", run0 (o4 (v4_unit_z O)));
-    ("v4_unit_w", run0 (o4 (v4_unit_w O)))
+  Definition tab_c03 : list (string * (list S -> gval S)) := [
+    ("v1_add", grun2 r1 r1 (fun a b => o1 (v1_add O a b)));
+    ("v2_add", grun2 r2 r2 (fun a b => o2 (v2_add O a b)));
+    ("v3_add", grun2 r3 r3 (fun a b => o3 (v3_add O a b)));
+    ("v4_add", grun2 r4 r4 (fun a b => o4 (v4_add O a b)));
+    ("v1_sub", grun2 r1 r1 (fun a b => o1 (v1_sub O a b)));
+    ("v2_sub", grun2 r2 r2 (fun a b => o2 (v2_sub O a b)));
+    ("v3_sub", grun2 r3 r3 (fun a b => o3 (v3_sub O a b)));
+    ("v4_sub", grun2 r4 r4 (fun a b => o4 (v4_sub O a b)));
+    ("v1_neg", grun1 r1 (fun a => o1 (v1_neg O a)));
+    ("v2_neg", grun1 r2 (fun a => o2 (v2_neg O a)));
+    ("v3_neg", grun1 r3 (fun a => o3 (v3_neg O a)));
+    ("v4_neg", grun1 r4 (fun a => o4 (v4_neg O a)));
+    ("v1_mul_s", grun2 r1 rs (fun a s => o1 (v1_mul_s O a s)));
+    ("v2_mul_s", grun2 r2 rs (fun a s => o2 (v2_mul_s O a s)));
+    ("v3_mul_s", grun2 r3 rs (fun a s => o3 (v3_mul_s O a s)));
+    ("v4_mul_s", grun2 r4 rs (fun a s => o4 (v4_mul_s O a s)));
+    ("v1_div_s", grun2 r1 rs (fun a s => o1 (v1_div_s O a s)));
+    ("v2_div_s", grun2 r2 rs (fun a s => o2 (v2_div_s O a s)));
+    ("v3_div_s", grun2 r3 rs (fun a s => o3 (v3_div_s O a s)));
+    ("v4_div_s", grun2 r4 rs (fun a s => o4 (v4_div_s O a s)));
+    ("v1_rem_s", grun2 r1 rs (fun a s => o1 (v1_rem_s O a s)));
+    ("v2_rem_s", grun2 r2 rs (fun a s => o2 (v2_rem_s O a s)));
+    ("v3_rem_s", grun2 r3 rs (fun a s => o3 (v3_rem_s O a s)));
+    ("v4_rem_s", grun2 r4 rs (fun a s => o4 (v4_rem_s O a s)));
+    ("v1_add_ew", grun2 r1 r1 (fun a b => o1 (v1_add_ew O a b)));
+    ("v2_add_ew", grun2 r2 r2 (fun a b => o2 (v2_add_ew O a b)));
+    ("v3_add_ew", grun2 r3 r3 (fun a b => o3 (v3_add_ew O a b)));
+    ("v4_add_ew", grun2 r4 r4 (fun a b => o4 (v4_add_ew O a b)));
+    ("v1_sub_ew", grun2 r1 r1 (fun a b => o1 (v1_sub_ew O a b)));
+    ("v2_sub_ew", grun2 r2 r2 (fun a b => o2 (v2_sub_ew O a b)));
+    ("v3_sub_ew", grun2 r3 r3 (fun a b => o3 (v3_sub_ew O a b)));
+    ("v4_sub_ew", grun2 r4 r4 (fun a b => o4 (v4_sub_ew O a b)));
+    ("v1_mul_ew", grun2 r1 r1 (fun a b => o1 (v1_mul_ew O a b)));
+    ("v2_mul_ew", grun2 r2 r2 (fun a b => o2 (v2_mul_ew O a b)));
+    ("v3_mul_ew", grun2 r3 r3 (fun a b => o3 (v3_mul_ew O a b)));
+    ("v4_mul_ew", grun2 r4 r4 (fun a b => o4 (v4_mul_ew O a b)));
+    ("v1_div_ew", grun2 r1 r1 (fun a b => o1 (v1_div_ew O a b)));
+    ("v2_div_ew", grun2 r2 r2 (fun a b => o2 (v2_div_ew O a b)));
+    ("v3_div_ew", grun2 r3 r3 (fun a b => o3 (v3_div_ew O a b)));
+    ("v4_div_ew", grun2 r4 r4 (fun a b => o4 (v4_div_ew O a b)));
+    ("v1_rem_ew", grun2 r1 r1 (fun a b => o1 (v1_rem_ew O a b)));
+    ("v2_rem_ew", grun2 r2 r2 (fun a b => o2 (v2_rem_ew O a b)));
+    ("v3_rem_ew", grun2 r3 r3 (fun a b => o3 (v3_rem_ew O a b)));
+    ("v4_rem_ew", grun2 r4 r4 (fun a b => o4 (v4_rem_ew O a b)));
+    ("v1_add_ews", grun2 r1 rs (fun a s => o1 (v1_add_ews O a s)));
+    ("v2_add_ews", grun2 r2 rs (fun a s => o2 (v2_add_ews O a s)));
+    ("v3_add_ews", grun2 r3 rs (fun a s => o3 (v3_add_ews O a s)));
+    ("v4_add_ews", grun2 r4 rs (fun a s => o4 (v4_add_ews O a s)));
+    ("v1_sub_ews", grun2 r1 rs (fun a s => o1 (v1_sub_ews O a s)));
+    ("v2_sub_ews", grun2 r2 rs (fun a s => o2 (v2_sub_ews O a s)));
+    ("v3_sub_ews", grun2 r3 rs (fun a s => o3 (v3_sub_ews O a s)));
+    ("v4_sub_ews", grun2 r4 rs (fun a s => o4 (v4_sub_ews O a s)));
+    ("v1_mul_ews", grun2 r1 rs (fun a s => o1 (v1_mul_ews O a s)));
+    ("v2_mul_ews", grun2 r2 rs (fun a s => o2 (v2_mul_ews O a s)));
+    ("v3_mul_ews", grun2 r3 rs (fun a s => o3 (v3_mul_ews O a s)));
+    ("v4_mul_ews", grun2 r4 rs (fun a s => o4 (v4_mul_ews O a s)));
+    ("v1_div_ews", grun2 r1 rs (fun a s => o1 (v1_div_ews O a s)));
+    ("v2_div_ews", grun2 r2 rs (fun a s => o2 (v2_div_ews O a s)));
+    ("v3_div_ews", grun2 r3 rs (fun a s => o3 (v3_div_ews O a s)));
+    ("v4_div_ews", grun2 r4 rs (fun a s => o4 (v4_div_ews O a s)));
+    ("v1_rem_ews", grun2 r1 rs (fun a s => o1 (v1_rem_ews O a s)));
+    ("v2_rem_ews", grun2 r2 rs (fun a s => o2 (v2_rem_ews O a s)));
+    ("v3_rem_ews", grun2 r3 rs (fun a s => o3 (v3_rem_ews O a s)));
+    ("v4_rem_ews", grun2 r4 rs (fun a s => o4 (v4_rem_ews O a s)));
+    ("v1_add_assign", grun2 r1 r1 (fun a b => o1 (v1_add_assign O a b)));
+    ("v1_sub_assign", grun2 r1 r1 (fun a b => o1 (v1_sub_assign O a b)));
+    ("v1_mul_assign", grun2 r1 rs (fun a s => o1 (v1_mul_assign O a s)));
+    ("v1_div_assign", grun2 r1 rs (fun a s => o1 (v1_div_assign O a s)));
+    ("v1_rem_assign", grun2 r1 rs (fun a s => o1 (v1_rem_assign O a s)));
+    ("v1_add_assign_ew", grun2 r1 r1 (fun a b => o1 (v1_add_assign_ew O a b)));
+    ("v1_add_assign_ews", grun2 r1 rs (fun a s => o1 (v1_add_assign_ews O a s)));
+    ("v1_sub_assign_ew", grun2 r1 r1 (fun a b => o1 (v1_sub_assign_ew O a b)));
+    ("v1_sub_assign_ews", grun2 r1 rs (fun a s => o1 (v1_sub_assign_ews O a s)));
+    ("v1_mul_assign_ew", grun2 r1 r1 (fun a b => o1 (v1_mul_assign_ew O a b)));
+    ("v1_mul_assign_ews", grun2 r1 rs (fun a s => o1 (v1_mul_assign_ews O a s)));
+    ("v1_div_assign_ew", grun2 r1 r1 (fun a b => o1 (v1_div_assign_ew O a b)));
+    ("v1_div_assign_ews", grun2 r1 rs (fun a s => o1 (v1_div_assign_ews O a s)));
+    ("v1_rem_assign_ew", grun2 r1 r1 (fun a b => o1 (v1_rem_assign_ew O a b)));
+    ("v1_rem_assign_ews", grun2 r1 rs (fun a s => o1 (v1_rem_assign_ews O a s)));
+    ("v2_add_assign", grun2 r2 r2 (fun a b => o2 (v2_add_assign O a b)));
+    ("v2_sub_assign", grun2 r2 r2 (fun a b => o2 (v2_sub_assign O a b)));
+    ("v2_mul_assign", grun2 r2 rs (fun a s => o2 (v2_mul_assign O a s)));
+    ("v2_div_assign", grun2 r2 rs (fun a s => o2 (v2_div_assign O a s)));
+    ("v2_rem_assign", grun2 r2 rs (fun a s => o2 (v2_rem_assign O a s)));
+    ("v2_add_assign_ew", grun2 r2 r2 (fun a b => o2 (v2_add_assign_ew O a b)));
+    ("v2_add_assign_ews", grun2 r2 rs (fun a s => o2 (v2_add_assign_ews O a s)));
+    ("v2_sub_assign_ew", grun2 r2 r2 (fun a b => o2 (v2_sub_assign_ew O a b)));
+    ("v2_sub_assign_ews", grun2 r2 rs (fun a s => o2 (v2_sub_assign_ews O a s)));
+    ("v2_mul_assign_ew", grun2 r2 r2 (fun a b => o2 (v2_mul_assign_ew O a b)));
+    ("v2_mul_assign_ews", grun2 r2 rs (fun a s => o2 (v2_mul_assign_ews O a s)));
+    ("v2_div_assign_ew", grun2 r2 r2 (fun a b => o2 (v2_div_assign_ew O a b)));
+    ("v2_div_assign_ews", grun2 r2 rs (fun a s => o2 (v2_div_assign_ews O a s)));
+    ("v2_rem_assign_ew", grun2 r2 r2 (fun a b => o2 (v2_rem_assign_ew O a b)));
+    ("v2_rem_assign_ews", grun2 r2 rs (fun a s => o2 (v2_rem_assign_ews O a s)));
+    ("v3_add_assign", grun2 r3 r3 (fun a b => o3 (v3_add_assign O a b)));
+    ("v3_sub_assign", grun2 r3 r3 (fun a b => o3 (v3_sub_assign O a b)));
+    ("v3_mul_assign", grun2 r3 rs (fun a s => o3 (v3_mul_assign O a s)));
+    ("v3_div_assign", grun2 r3 rs (fun a s => o3 (v3_div_assign O a s)));
+    ("v3_rem_assign", grun2 r3 rs (fun a s => o3 (v3_rem_assign O a s)));
+    ("v3_add_assign_ew", grun2 r3 r3 (fun a b => o3 (v3_add_assign_ew O a b)));
+    ("v3_add_assign_ews", grun2 r3 rs (fun a s => o3 (v3_add_assign_ews O a s)));
+    ("v3_sub_assign_ew", grun2 r3 r3 (fun a b => o3 (v3_sub_assign_ew O a b)));
+    ("v3_sub_assign_ews", grun2 r3 rs (fun a s => o3 (v3_sub_assign_ews O a s)));
+    ("v3_mul_assign_ew", grun2 r3 r3 (fun a b => o3 (v3_mul_assign_ew O a b)));
+    ("v3_mul_assign_ews", grun2 r3 rs (fun a s => o3 (v3_mul_assign_ews O a s)));
+    ("v3_div_assign_ew", grun2 r3 r3 (fun a b => o3 (v3_div_assign_ew O a b)));
+    ("v3_div_assign_ews", grun2 r3 rs (fun a s => o3 (v3_div_assign_ews O a s)));
+    ("v3_rem_assign_ew", grun2 r3 r3 (fun a b => o3 (v3_rem_assign_ew O a b)));
+    ("v3_rem_assign_ews", grun2 r3 rs (fun a s => o3 (v3_rem_assign_ews O a s)));
+    ("v4_add_assign", grun2 r4 r4 (fun a b => o4 (v4_add_assign O a b)));
+    ("v4_sub_assign", grun2 r4 r4 (fun a b => o4 (v4_sub_assign O a b)));
+    ("v4_mul_assign", grun2 r4 rs (fun a s => o4 (v4_mul_assign O a s)));
+    ("v4_div_assign", grun2 r4 rs (fun a s => o4 (v4_div_assign O a s)));
+    ("v4_rem_assign", grun2 r4 rs (fun a s => o4 (v4_rem_assign O a s)));
+    ("v4_add_assign_ew", grun2 r4 r4 (fun a b => o4 (v4_add_assign_ew O a b)));
+    ("v4_add_assign_ews", grun2 r4 rs (fun a s => o4 (v4_add_assign_ews O a s)));
+    ("v4_sub_assign_ew", grun2 r4 r4 (fun a b => o4 (v4_sub_assign_ew O a b)));
+    ("v4_sub_assign_ews", grun2 r4 rs (fun a s => o4 (v4_sub_assign_ews O a s)));
+    ("v4_mul_assign_ew", grun2 r4 r4 (fun a b => o4 (v4_mul_assign_ew O a b)));
+    ("v4_mul_assign_ews", grun2 r4 rs (fun a s => o4 (v4_mul_assign_ews O a s)));
+    ("v4_div_assign_ew", grun2 r4 r4 (fun a b => o4 (v4_div_assign_ew O a b)));
+    ("v4_div_assign_ews", grun2 r4 rs (fun a s => o4 (v4_div_assign_ews O a s)));
+    ("v4_rem_assign_ew", grun2 r4 r4 (fun a b => o4 (v4_rem_assign_ew O a b)));
+    ("v4_rem_assign_ews", grun2 r4 rs (fun a s => o4 (v4_rem_assign_ews O a s)));
+    ("v1_sum", grun1 r1 (fun a => os (v1_sum a)));
+    ("v2_sum", grun1 r2 (fun a => os (v2_sum O a)));
+    ("v3_sum", grun1 r3 (fun a => os (v3_sum O a)));
+    ("v4_sum", grun1 r4 (fun a => os (v4_sum O a)));
+    ("v1_product", grun1 r1 (fun a => os (v1_product a)));
+    ("v2_product", grun1 r2 (fun a => os (v2_product O a)));
+    ("v3_product", grun1 r3 (fun a => os (v3_product O a)));
+    ("v4_product", grun1 r4 (fun a => os (v4_product O a)));
+    ("v1_zero", grun0 (o1 (v1_zero O)));
+    ("v2_zero", grun0 (o2 (v2_zero O)));
+    ("v3_zero", grun0 (o3 (v3_zero O)));
+    ("v4_zero", grun0 (o4 (v4_zero O)));
+    ("v1_from_value", grun1 rs (fun s => o1 (v1_from_value s)));
+    ("v2_from_value", grun1 rs (fun s => o2 (v2_from_value s)));
+    ("v3_from_value", grun1 rs (fun s => o3 (v3_from_value s)));
+    ("v4_from_value", grun1 rs (fun s => o4 (v4_from_value s)));
+    ("v1_dot", grun2 r1 r1 (fun a b => os (v1_dot O a b)));
+    ("v2_dot", grun2 r2 r2 (fun a b => os (v2_dot O a b)));
+    ("v3_dot", grun2 r3 r3 (fun a b => os (v3_dot O a b)));
+    ("v4_dot", grun2 r4 r4 (fun a b => os (v4_dot O a b)));
+    ("v1_magnitude2", grun1 r1 (fun a => os (v1_magnitude2 O a)));
+    ("v2_magnitude2", grun1 r2 (fun a => os (v2_magnitude2 O a)));
+    ("v3_magnitude2", grun1 r3 (fun a => os (v3_magnitude2 O a)));
+    ("v4_magnitude2", grun1 r4 (fun a => os (v4_magnitude2 O a)));
+    ("v3_cross", grun2 r3 r3 (fun a b => o3 (v3_cross O a b)));
+    ("v2_perp_dot", grun2 r2 r2 (fun a b => os (v2_perp_dot O a b)));
+    ("v1_unit_x", grun0 (o1 (v1_unit_x O)));
+    ("v2_unit_x", grun0 (o2 (v2_unit_x O)));
+    ("v2_unit_y", grun0 (o2 (v2_unit_y O)));
+    ("v3_unit_x", grun0 (o3 (v3_unit_x O)));
+    ("v3_unit_y", grun0 (o3 (v3_unit_y O)));
+    ("v3_unit_z", grun0 (o3 (v3_unit_z O)));
+    ("v4_unit_x", grun0 (o4 (v4_unit_x O)));
+    ("v4_unit_y", grun0 (o4 (v4_unit_y O)));
+    ("v4_unit_z", grun0 (o4 (v4_unit_z O)));
+    ("v4_unit_w", grun0 (o4 (v4_unit_w O)))
   ].
 End Tab.
 
 Definition run_c03 : runner := fun f _ args =>
   match f with
   | String "z"%char (String ":"%char g) =>
-      match dispatch (tab_c03 OpsZ vz) g with Some h => h (map qc_Z args) | None => VBad end
-  | _ => match dispatch (tab_c03 OpsQ vq) f with Some h => h args | None => VBad end
+      match dispatch (ztab (tab_c03 OpsZ)) g with Some h => h (map qc_Z args) | None => VBad end
+  | _ => match dispatch (qtab (tab_c03 OpsQ)) f with Some h => h args | None => VBad end
   end.
